@@ -152,6 +152,9 @@ def explore(run, max_paths=4096):
             out = ('infeasible', None)
         except Unsupported as u:
             out = ('unsupported', str(u))
+            if os.environ.get('VERIF_TRACE_UNSUPPORTED'):
+                import traceback
+                traceback.print_exc()
         except Exception as e:
             if type(e).__name__ == 'PathEnd':
                 out = ('cut', None)
@@ -978,8 +981,17 @@ class Interp:
         raise Unsupported(f'expression {T.__name__}')
 
     def _special_genexp(self, e, env, module):
-        """(D[x] for x in SEQ) with SEQ of symbolic length and D an abstract map: a symbolic sequence of lookups"""
+        """(D[x] for x in SEQ) with SEQ of symbolic length and D an abstract map: a symbolic sequence of lookups;
+        (B if x == A else x for x in SEQ): substitution view"""
         g = e.generators[0]
+        if (isinstance(g.target, ast.Name) and isinstance(e.elt, ast.IfExp) and isinstance(e.elt.orelse, ast.Name) and e.elt.orelse.id == g.target.id
+                and isinstance(e.elt.test, ast.Compare) and len(e.elt.test.ops) == 1 and isinstance(e.elt.test.ops[0], ast.Eq)
+                and isinstance(e.elt.test.left, ast.Name) and e.elt.test.left.id == g.target.id):
+            src = self.eval(g.iter, env, module)
+            if hasattr(src, 'm_subst') and src.concrete_len(self) is None:
+                names = {n.id for n in ast.walk(e.elt.body) if isinstance(n, ast.Name)} | {n.id for n in ast.walk(e.elt.test.comparators[0]) if isinstance(n, ast.Name)}
+                if g.target.id not in names:
+                    return src.m_subst(self, self.eval(e.elt.test.comparators[0], env, module), self.eval(e.elt.body, env, module))
         if not (isinstance(g.target, ast.Name) and isinstance(e.elt, ast.Subscript) and isinstance(e.elt.slice, ast.Name)
                 and e.elt.slice.id == g.target.id and isinstance(e.elt.value, ast.Name)):
             return NOTFOUND
@@ -1001,6 +1013,18 @@ class Interp:
             m = self.eval(g.iter.func.value, env, module)
             if hasattr(m, 'm_listcomp_items'):
                 return m.m_listcomp_items(self, e, env, module)
+            return NOTFOUND
+        # [i for i, x in enumerate(L) if x == a]: the increasing sequence of all positions of a in L
+        if (isinstance(g.target, ast.Tuple) and len(g.target.elts) == 2 and all(isinstance(t, ast.Name) for t in g.target.elts)
+                and isinstance(g.iter, ast.Call) and isinstance(g.iter.func, ast.Name) and g.iter.func.id == 'enumerate' and len(g.iter.args) == 1 and not g.iter.keywords
+                and isinstance(e.elt, ast.Name) and e.elt.id == g.target.elts[0].id and len(g.ifs) == 1 and len(e.generators) == 1):
+            c = g.ifs[0]
+            xi = g.target.elts[1].id
+            if (isinstance(c, ast.Compare) and len(c.ops) == 1 and isinstance(c.ops[0], ast.Eq) and isinstance(c.left, ast.Name) and c.left.id == xi
+                    and not any(isinstance(n, ast.Name) and n.id in (xi, e.elt.id) for n in ast.walk(c.comparators[0]))):
+                src = self.eval(g.iter.args[0], env, module)
+                if hasattr(src, 'm_positions_eq'):
+                    return src.m_positions_eq(self, self.eval(c.comparators[0], env, module))
             return NOTFOUND
         if not (isinstance(g.target, ast.Name) and isinstance(e.elt, ast.Name) and e.elt.id == g.target.id and len(g.ifs) == 1):
             return NOTFOUND
